@@ -35,6 +35,16 @@ type schedCfg struct {
 	shared bool
 	// viaConfig: the graph is built by the configuration loader from a YAML document (top level only)
 	viaConfig bool
+	// names: the names given to the top-level STAGES (nil: their index); tasks keep the index as their name
+	names []string
+}
+
+// disp is the stage name handed to the implementation for stage i of the (sub)graph with the given prefix
+func (c *schedCfg) disp(prefix string, i int) string {
+	if prefix == "" && c.names != nil {
+		return c.names[i]
+	}
+	return fmt.Sprintf("%s%d", prefix, i)
 }
 
 const (
@@ -70,6 +80,9 @@ func (c *schedCfg) describe() string {
 	}
 	if c.viaConfig {
 		s += " built-by-config-loader"
+	}
+	if c.names != nil {
+		s += fmt.Sprintf(" stage-names=%q", c.names)
 	}
 	for i, nc := range c.nested {
 		if nc != nil {
@@ -411,16 +424,16 @@ func buildGraphRec(c *schedCfg, prefix string, inherited []*scheduler.Stage, all
 	stages := make([]*scheduler.Stage, c.n)
 	for i := 0; i < c.n; i++ {
 		name := fmt.Sprintf("%s%d", prefix, i)
-		st := &scheduler.Stage{Name: name, Condition: condCmd(c.cond[i]), AllowFailure: c.allow[i]}
+		st := &scheduler.Stage{Name: c.disp(prefix, i), Condition: condCmd(c.cond[i]), AllowFailure: c.allow[i]}
 		for _, d := range c.deps[i] {
-			st.DependsOn = append(st.DependsOn, fmt.Sprintf("%s%d", prefix, d))
+			st.DependsOn = append(st.DependsOn, c.disp(prefix, d))
 		}
 		stages[i] = st
 		all.stages[name] = st
 		all.allow[name] = c.allow[i]
 	}
 	for i := 0; i < c.n; i++ {
-		name := stages[i].Name
+		name := fmt.Sprintf("%s%d", prefix, i)
 		var ds []*scheduler.Stage
 		for _, d := range c.deps[i] {
 			ds = append(ds, stages[d])
@@ -631,7 +644,7 @@ func buildViaConfig(c *schedCfg) (*builtGraph, error) {
 		fmt.Fprintf(&pipes, "  %q:\n", pl)
 		for _, i := range c.order {
 			name := fmt.Sprintf("%s%d", prefix, i)
-			fmt.Fprintf(&pipes, "    - name: %q\n", name)
+			fmt.Fprintf(&pipes, "    - name: %q\n", c.disp(prefix, i))
 			if c.nested != nil && c.nested[i] != nil {
 				fmt.Fprintf(&pipes, "      pipeline: %q\n", "pl_"+name)
 			} else {
@@ -641,7 +654,7 @@ func buildViaConfig(c *schedCfg) (*builtGraph, error) {
 			if len(c.deps[i]) > 0 {
 				var ds []string
 				for _, d := range c.deps[i] {
-					ds = append(ds, fmt.Sprintf("%q", fmt.Sprintf("%s%d", prefix, d)))
+					ds = append(ds, fmt.Sprintf("%q", c.disp(prefix, d)))
 				}
 				fmt.Fprintf(&pipes, "      depends_on: [%s]\n", strings.Join(ds, ", "))
 			}
@@ -681,7 +694,7 @@ func buildViaConfig(c *schedCfg) (*builtGraph, error) {
 		nodes := g.Nodes()
 		for i := 0; i < c.n; i++ {
 			name := fmt.Sprintf("%s%d", prefix, i)
-			st := nodes[name]
+			st := nodes[c.disp(prefix, i)]
 			if st == nil {
 				return fmt.Errorf("stage %s missing from the loaded pipeline", name)
 			}
@@ -692,15 +705,15 @@ func buildViaConfig(c *schedCfg) (*builtGraph, error) {
 			name := fmt.Sprintf("%s%d", prefix, i)
 			var ds []*scheduler.Stage
 			for _, d := range c.deps[i] {
-				ds = append(ds, nodes[fmt.Sprintf("%s%d", prefix, d)])
+				ds = append(ds, nodes[c.disp(prefix, d)])
 			}
 			ds = append(ds, inherited...)
 			all.deps[name] = ds
 			if c.nested != nil && c.nested[i] != nil {
-				if nodes[name].Pipeline == nil {
+				if nodes[c.disp(prefix, i)].Pipeline == nil {
 					return fmt.Errorf("stage %s lost its pipeline", name)
 				}
-				if err := collect(c.nested[i], name+".", nodes[name].Pipeline, ds); err != nil {
+				if err := collect(c.nested[i], name+".", nodes[c.disp(prefix, i)].Pipeline, ds); err != nil {
 					return err
 				}
 			}
